@@ -23,7 +23,8 @@ KERNELS = ['scale', 'scale2', 'pack', 'pack2', 'unpack', 'sdot', 'snrm2', 'sgemv
 
 
 def cases(tier, seed, flavour):
-    structs = dom.structures(tier)
+    # (+ two 's' blocks of different orders >= 2: the fallback kernels share one workspace of the largest order)
+    structs = dom.structures(tier) + [{'l': 0, 'q': [], 's': [2, 3]}, {'l': 1, 'q': [2], 's': [3, 2]}]
     nvar = 4 if tier == 'thorough' else 2
     variants = [(seed * nvar + i) for i in range(nvar)]
     if flavour == 'asan' and tier == 'quick':
